@@ -139,10 +139,11 @@ def o2_state(arg):
         return out
     from blackbird.error import BlackbirdErrorListener, BlackbirdSyntaxError
     consts = module_string_constants()
-    E = engine.Engine(max_paths=400, timeout_ms=20000)
+    E = engine.Engine(max_paths=400, timeout_ms=20000, cache=_QCACHE)
     line, col = z3.Int("line"), z3.Int("column")
     msg, txt = z3.String("msg"), z3.String("offending_text")
-    E.base = [line >= 1, col >= 0, z3.Or([z3.PrefixOf(z3.StringVal(p), msg) for p in MSG_PREFIXES]), z3.Length(msg) <= 96, z3.Length(txt) <= 12]
+    # message and offending text are completely free strings (a superset of what DefaultErrorStrategy can produce)
+    E.base = [line >= 1, col >= 0]
 
     class Sym:
         pass
@@ -198,6 +199,7 @@ def o2_state(arg):
 
 
 _L = {}
+_QCACHE = {}
 
 
 def _lang():
@@ -286,7 +288,7 @@ def main():
     rep.assumptions = [
         "the antlr4 runtime reports a syntax error exactly for the non-sentences of L(ATN) (ALL(*)), and calls the installed listener",
         "error states are harvested from the real parser on single-token mutants of the corpus (the state space is sampled, the values in a state are symbolic)",
-        "message texts are constrained to the four shapes of DefaultErrorStrategy with free remainders (<= 96 chars), offending text <= 12 chars",
+        "message text and offending text are completely free strings (a superset of what the runtime can produce)",
         "not decided: the reported token is never earlier than the first offending token",
     ]
     rnd = random.Random(common.seed())
@@ -343,9 +345,6 @@ def main():
     rep.extra["distinct_error_states"] = len(states)
     # O2 on one representative text per distinct state
     jobs = [(text, desc) for key, (text, desc) in sorted(states.items(), key=lambda kv: repr(kv[0]))]
-    if t == "quick":
-        rnd.shuffle(jobs)
-        jobs = jobs[:160]
     results = U.run_parallel(o2_state, jobs)
     U.collect(rep, results, key_fn=lambda r: "O2 " + r["cex"]["symbolic_what"].split(":")[0] + " | " + finding_key(r),
               replay_fn=lambda r: REPLAY % {"root": common.ROOT, "text": r["cex"]["text"]},
